@@ -68,6 +68,15 @@ def c01_context_layouts(tier, access="r"):
                     Ls.append(Layout(W, [Field("only", ty, [(1, w)], None, access)], tag=f"single {ty.decl_ty()} at bit 1 as the only field of u{W}"))
         if W >= 8:
             Ls.append(Layout(W, [Field("only", T_uint(3), [(2, 3)], None, access)], tag=f"single u3 as the only field of u{W}"))
+    # a struct with one field per bit, raw identifiers, documented fields, non-pub struct
+    Ls.append(Layout(32, [Field(f"b{i}", T_bool() if i % 3 else T_uint(1), [(i, 1)], None, access) for i in range(32)], tag="32 one-bit fields on u32"))
+    L = Layout(64, [Field("type", T_uint(5), [(3, 5)], None, access, raw_ident=True), Field("match", T_bool(), [(63, 1)], None, access, raw_ident=True),
+                    Field("loop", T_int(8), [(20, 8)], None, access, raw_ident=True), Field("plain", T_uint(7), [(40, 7)], None, access, doc="a documented field")], tag="raw identifiers (r#type, r#match, r#loop) and a documented field on u64")
+    L.vis = ""
+    Ls.append(L)
+    L = Layout(24, [Field("fn", T_uint(3), [(21, 3)], None, access, raw_ident=True, doc="top field"), Field("a", T_uint(2), [(0, 2)], (3, 4, True), access, doc="documented array")], tag="raw identifier and documented array on u24")
+    L.vis, L.derives = "pub(crate)", "PartialEq, Eq, Debug"
+    Ls.append(L)
     return Ls
 
 
@@ -524,7 +533,9 @@ def c06_layouts(tier, seed):
             (("const", pats[1]), False, [], "named constant, struct without fields"),
             (("lit", pats[3], "dec"), True, [lowf], "decimal literal top bit only, legacy `:` syntax"),
         ]
-        forms += [(("lit", pats[1] | 1, "hex"), "debug_after", [], "literal default followed by `debug`"),
+        forms += [(("lit", pats[1] | 1, "bin"), False, [lowf], "binary literal default"),
+                  (("lit", pats[0], "hex_"), False, [], "hex literal with underscores, all ones"),
+                  (("lit", pats[1] | 1, "hex"), "debug_after", [], "literal default followed by `debug`"),
                   (("const", pats[0]), "debug_before", [], "`debug` written before a named-constant default"),
                   (("lit", pats[2], "dec"), "trailing_comma", [lowf], "literal default with a trailing comma")]
         if tier != "quick":
@@ -649,8 +660,11 @@ def enum_corpus(tier, seed):
             elif order == "shuffled":
                 random.Random(len(Es) * 31 + bits).shuffle(discrs)
         vs = [(f"V{i}", d, (cfg[i] if cfg else None)) for i, d in enumerate(discrs)]
+        if cfg is None and len(Es) % 5 == 4:
+            vs = [(n_, d_, "doc" if i_ % 2 == 0 else None) for i_, (n_, d_, _) in enumerate(vs)]
         e = EnumDef("E", bits, vs, exhaustive, legacy)
-        e.tag = tag or f"u{bits} {len(discrs)} variants exhaustive={exhaustive} declared {order}"
+        e.lit_form = ["hex", "dec", "bin", "hex_"][len(Es) % 4] if bits <= 32 or len(Es) % 2 else "hex"
+        e.tag = tag or f"u{bits} {len(discrs)} variants exhaustive={exhaustive} declared {order}, literals {e.lit_form}"
         Es.append(e)
 
     # N = 1, 2: every non-empty subset
